@@ -301,7 +301,7 @@ func compileCall(e b6.Expression, c *compilation) error {
 			return fmt.Errorf("undefined symbol %q", f)
 		}
 	case b6.LambdaExpression:
-		if l, err := compileLambda(e, c); err == nil {
+		if l, err := compileLambda(call.Function, c); err == nil {
 			c.Append(Instruction{Op: OpCallValue, Callable: l, Args: args, Expression: e})
 		} else {
 			return err
